@@ -21,6 +21,7 @@ type timerRec struct {
 	ch      *Chan
 	pending bool
 	cell    *Value
+	at      int64 // virtual deadline (ns): arming time + duration
 }
 
 func (in *Interp) lookupIntrinsic(fn *ssa.Function) intrinsic {
@@ -268,22 +269,9 @@ func init() {
 			return nil
 		},
 		harnessPkg + ".LetTimePass": func(in *Interp, fn *ssa.Function, a []Value, _ ssa.CallInstruction) Value {
-			// every armed timer fires, in arming order, until none is pending
+			// every armed timer fires, in deadline order, until none is pending
 			for n := 0; n < 64; n++ {
-				fired := false
-				for _, t := range in.timers {
-					if t.pending {
-						t.pending = false
-						fired = true
-						if t.f != nil {
-							in.callValue(t.f, nil, nil)
-						} else if t.ch != nil && len(t.ch.buf) < t.ch.cap {
-							t.ch.buf = append(t.ch.buf, zeroTime)
-						}
-						break
-					}
-				}
-				if !fired {
+				if !in.fireEarliest() {
 					break
 				}
 			}
@@ -435,7 +423,7 @@ func init() {
 		"time.AfterFunc": func(in *Interp, fn *ssa.Function, a []Value, _ ssa.CallInstruction) Value {
 			p := new(Value)
 			*p = zero(fn.Signature.Results().At(0).Type().(*types.Pointer).Elem())
-			in.timers = append(in.timers, &timerRec{f: a[1], pending: true, cell: p})
+			in.timers = append(in.timers, &timerRec{f: a[1], pending: true, cell: p, at: in.vnow + int64(in.concInt(a[0]))})
 			return p
 		},
 		"time.NewTimer": func(in *Interp, fn *ssa.Function, a []Value, _ ssa.CallInstruction) Value {
@@ -450,13 +438,13 @@ func init() {
 					(*p).(Struct)[i] = ch
 				}
 			}
-			in.timers = append(in.timers, &timerRec{ch: ch, pending: true, cell: p})
+			in.timers = append(in.timers, &timerRec{ch: ch, pending: true, cell: p, at: in.vnow + int64(in.concInt(a[0]))})
 			return p
 		},
 		"time.After": func(in *Interp, fn *ssa.Function, a []Value, _ ssa.CallInstruction) Value {
 			in.chanSeq++
 			ch := &Chan{cap: 1, id: in.chanSeq}
-			in.timers = append(in.timers, &timerRec{ch: ch, pending: true})
+			in.timers = append(in.timers, &timerRec{ch: ch, pending: true, at: in.vnow + int64(in.concInt(a[0]))})
 			return ch
 		},
 		"(*time.Timer).Stop": func(in *Interp, fn *ssa.Function, a []Value, _ ssa.CallInstruction) Value {
@@ -482,6 +470,7 @@ func init() {
 				if t.cell == p {
 					was := t.pending
 					t.pending = true
+					t.at = in.vnow + int64(in.concInt(a[1]))
 					return was
 				}
 			}
